@@ -120,7 +120,7 @@ impl<'h> FindMatchesImpl<'h> {
         let mut new_mode = 0;
         // See `next_match`: the char indices are relative to the offset.
         let haystack = self.input.get(self.offset..).unwrap_or("");
-        for _ in 0..n {
+        while matches.len() < n {
             let result = self.scanner_impl.peek_from(haystack, char_indices.clone());
             if let Some(mut matched) = result {
                 let token_type = matched.token_type();
@@ -132,9 +132,12 @@ impl<'h> FindMatchesImpl<'h> {
                     new_mode = mode;
                     break;
                 }
-            } else {
+            } else if char_indices.next().is_none() {
+                // The end of the haystack is reached.
                 break;
             }
+            // Otherwise no pattern matches at this position: like `next_match` we skip one
+            // character of the (cloned) iterator and try again.
         }
         if mode_switch {
             PeekResult::MatchesReachedModeSwitch((matches, new_mode))
